@@ -5,6 +5,7 @@ import (
 	"errors"
 	"fmt"
 	"github.com/hneemann/iterator"
+	"github.com/hneemann/parser2"
 	"github.com/hneemann/parser2/funcGen"
 	"github.com/hneemann/parser2/listMap"
 	"math"
@@ -292,6 +293,50 @@ func ToFloat(name string, st funcGen.Stack[Value], n int) (float64, error) {
 	}
 }
 
+// recoverToError converts a panic to an error. It needs to be called deferred.
+// It is used in closures that may be executed in another goroutine than the
+// evaluation of the expression, where a panic would terminate the process.
+func recoverToError(err *error) {
+	if rec := recover(); rec != nil {
+		*err = parser2.AnyToError(rec)
+	}
+}
+
+// rethrowConsumerPanic wraps a producer that may call its consumer from another
+// goroutine. A panic of the consumer is caught in that goroutine, the iteration
+// is stopped, and the panic is raised again in the goroutine that runs the
+// producer, where it is handled like every other panic.
+func rethrowConsumerPanic(p iterator.Producer[Value]) iterator.Producer[Value] {
+	return func(yield iterator.Consumer[Value]) {
+		var consumerPanic any
+		p(func(v Value, err error) (goOn bool) {
+			defer func() {
+				if rec := recover(); rec != nil {
+					consumerPanic = rec
+					goOn = false
+				}
+			}()
+			return yield(v, err)
+		})
+		if consumerPanic != nil {
+			panic(consumerPanic)
+		}
+	}
+}
+
+// recoverProducerPanic wraps a producer that is iterated in its own goroutine.
+// A panic of the producer is converted to an error which is passed to the consumer.
+func recoverProducerPanic(p iterator.Producer[Value]) iterator.Producer[Value] {
+	return func(yield iterator.Consumer[Value]) {
+		defer func() {
+			if rec := recover(); rec != nil {
+				yield(nil, parser2.AnyToError(rec))
+			}
+		}()
+		p(yield)
+	}
+}
+
 func (l *List) Accept(sta funcGen.Stack[Value]) (*List, error) {
 	f, err := ToFunc("accept", sta, 1, 1)
 	if err != nil {
@@ -301,9 +346,10 @@ func (l *List) Accept(sta funcGen.Stack[Value]) (*List, error) {
 		// The filter may be executed in parallel. In this case the source list is
 		// iterated concurrently to the consumers of the filtered list, which use
 		// the stack st. Therefore the source needs its own stack.
-		return iterator.FilterAuto[Value](l.iterable(funcGen.NewEmptyStack[Value]()), func() func(v Value) (bool, error) {
+		return rethrowConsumerPanic(iterator.FilterAuto[Value](l.iterable(funcGen.NewEmptyStack[Value]()), func() func(v Value) (bool, error) {
 			s := funcGen.NewEmptyStack[Value]()
-			return func(v Value) (bool, error) {
+			return func(v Value) (accepted bool, err error) {
+				defer recoverToError(&err)
 				eval, err := f.Eval(s, v)
 				if err != nil {
 					return false, err
@@ -313,7 +359,7 @@ func (l *List) Accept(sta funcGen.Stack[Value]) (*List, error) {
 				}
 				return false, fmt.Errorf("function in accept does not return a bool")
 			}
-		})
+		}))
 	}), nil
 }
 
@@ -326,12 +372,13 @@ func (l *List) Map(sta funcGen.Stack[Value]) (*List, error) {
 		// The map may be executed in parallel. In this case the source list is
 		// iterated concurrently to the consumers of the mapped list, which use
 		// the stack st. Therefore the source needs its own stack.
-		return iterator.MapAuto[Value, Value](l.iterable(funcGen.NewEmptyStack[Value]()), func() func(i int, v Value) (Value, error) {
+		return rethrowConsumerPanic(iterator.MapAuto[Value, Value](l.iterable(funcGen.NewEmptyStack[Value]()), func() func(i int, v Value) (Value, error) {
 			s := funcGen.NewEmptyStack[Value]()
-			return func(i int, v Value) (Value, error) {
+			return func(i int, v Value) (mapped Value, err error) {
+				defer recoverToError(&err)
 				return f.Eval(s, v)
 			}
-		})
+		}))
 	}, l.size), nil
 }
 
@@ -409,7 +456,7 @@ func (l *List) Merge(sta funcGen.Stack[Value]) (*List, error) {
 			// Both lists are iterated in their own goroutine, concurrently to the
 			// less function, which uses the stack st. Therefore, both lists need
 			// their own stack.
-			return iterator.Merge(l.iterable(funcGen.NewEmptyStack[Value]()), otherList.iterable(funcGen.NewEmptyStack[Value]()),
+			return iterator.Merge(recoverProducerPanic(l.iterable(funcGen.NewEmptyStack[Value]())), recoverProducerPanic(otherList.iterable(funcGen.NewEmptyStack[Value]())),
 				func(a, b Value) (bool, error) {
 					st.Push(a)
 					st.Push(b)
